@@ -34,15 +34,18 @@ const (
 
 // Opts configures a world.
 type Opts struct {
-	Seed       uint64
-	HookMode   int
-	HookMax    time.Duration            // upper bound of a vsleep delay (default 2µs)
-	HookDelays map[string]time.Duration // fixed delay per site (overrides the seeded one)
-	Quiet      bool                     // no event log, no hook counters (race passes)
-	LocalID    netip.Addr
-	LocalAddr  netip.Addr
-	NoServe    bool
-	Limit      time.Duration // virtual watchdog (default 6h)
+	Seed          uint64
+	HookMode      int
+	HookMax       time.Duration            // upper bound of a vsleep delay (default 2µs)
+	HookDelays    map[string]time.Duration // fixed delay per site (overrides the seeded one)
+	LisCloseDelay time.Duration            // closing the listener takes this long
+	CloseYields   int                      // every Close by corebgp yields the processor that many times first
+	CloseDelay    time.Duration            // every Close by corebgp takes this long (only for worlds in which Server.mu is never contended)
+	Quiet         bool                     // no event log, no hook counters (race passes)
+	LocalID       netip.Addr
+	LocalAddr     netip.Addr
+	NoServe       bool
+	Limit         time.Duration // virtual watchdog (default 6h)
 	// ExtraListeners: number of additional listeners handed to Serve (connections
 	// can be injected through any of them with ConnectVia)
 	ExtraListeners int
@@ -357,6 +360,7 @@ func Run(t *testing.T, o Opts, fn func(w *World)) (out Outcome) {
 		w.Srv = srv
 		if !o.NoListener {
 			w.Lis = memnet.NewListener(netip.AddrPortFrom(o.LocalAddr, 179))
+			w.Lis.CloseDelay = o.LisCloseDelay
 			for k := 0; k < o.ExtraListeners; k++ {
 				w.Extra = append(w.Extra, memnet.NewListener(netip.AddrPortFrom(o.LocalAddr, uint16(1179+k))))
 			}
@@ -597,6 +601,8 @@ func (w *World) newPair(a0, a1 netip.AddrPort) *memnet.Pair {
 	id := w.nextID
 	w.nextID++
 	p := memnet.NewPair(id, a0, a1)
+	p.CloseDelay0 = w.O.CloseDelay
+	p.CloseYields0 = w.O.CloseYields
 	w.pairs = append(w.pairs, p)
 	w.mu.Unlock()
 	return p
@@ -839,6 +845,18 @@ func (w *World) OpenPairsOf(a netip.Addr) []*RConn {
 	var out []*RConn
 	for _, c := range w.Conns() {
 		if c.PeerIP == a && !c.Refused && c.Pair.Closed(0) == 0 {
+			out = append(out, c)
+		}
+	}
+	return out
+}
+
+// HeldPairsOf returns the peer's connections that corebgp has used (at least one
+// Read or Write call on its end) and not closed: connections it holds.
+func (w *World) HeldPairsOf(a netip.Addr) []*RConn {
+	var out []*RConn
+	for _, c := range w.OpenPairsOf(a) {
+		if c.Pair.Ops(0) > 0 {
 			out = append(out, c)
 		}
 	}
